@@ -87,12 +87,16 @@ def register(claim, not_yet):
           'DWTInverse with None) and by the pywt.waverec/waverec2 oracle on arbitrary pyramids; short periodization is a known finding.' + TIE + BRK,
           'Lean 4 refinement theorem (synthesis = pywt idwt) + exact correspondence + pywt oracle on arbitrary pyramids', 'DESIGN.md §4 C10')
     claim('C11',
-          'Proved: the four poly-phase branches of colifilt interleave as rows 4t..4t+3; colifilt raises exactly for odd/empty columns; with the band-pass absent inv_j2plus is the low-pass-only '
-          'synthesis; DTCWTInverse with nothing present raises; colifilt equals the reference poly-phase formula (dtcwt.numpy.lowlevel.colifilt written as an index formula, itself validated against the '
-          'package) in all parity/tree-order cases. Equality of the whole inverse pyramid with the reference is decided by the exact Q(sqrt2) correspondence (colifilt/rowifilt, c2q, inv_j1, inv_j2plus, '
-          'DTCWTInverse with absent inputs in three spellings) and by the dtcwt oracle on arbitrary pyramids; absent == zeros is checked for subsets of levels (one known finding: absent level '
-          'below an extended level).' + TIE + BRK,
-          'Lean 4 structural theorems + exact Q(sqrt2) correspondence + numpy dtcwt inverse oracle + absent==zeros oracle', 'DESIGN.md §4 C11', 'reference equality is correspondence/oracle-decided: partial.')
+          'Proved for the implementation model, for EVERY number of levels and every pyramid of forward-compatible shape with all levels present (whether or not it is the transform of an image): '
+          'DTCWTInverse returns exactly the reference inverse Spec.refInverse (C11P.dtcwt_inverse_eq_ref) - level synthesis equal to the reference level (invJ1_eq_ref, invJ2_eq_ref: columns then rows, '
+          'sums in the other order), the [1:-1] crop the library places before a level equal to the crop the reference places after the previous one (crop_rect), induction over the levels (go_eq_ref); '
+          'a compatible shape is one where each synthesis result is twice the next finer band or larger by the padding (PyrOK, satisfiable: example). Ingredients for all lengths: colifilt equals the reference poly-phase formula '
+          '(dtcwt.numpy.lowlevel.colifilt as an index formula) in all parity / tree-order cases, interleaves its four branches as rows 4t..4t+3 and raises exactly for odd/empty columns; with the band-pass absent '
+          'inv_j2plus is the low-pass-only synthesis; DTCWTInverse with nothing present raises. Spec.refInverse is compared with dtcwt.Transform2d.inverse on arbitrary pyramids on every run (named tables and integer filters). '
+          'Absent inputs (None / empty tensors == zeros), layouts and rounding are decided by the exact Q(sqrt2) correspondence (colifilt/rowifilt, c2q, inv_j1, inv_j2plus, DTCWTInverse with absent inputs in three '
+          'spellings) and by the dtcwt oracle on arbitrary pyramids incl. present-but-zero levels; absent == zeros is checked for subsets of levels (one known finding: absent level below an extended level).' + TIE + BRK,
+          'Lean 4 refinement theorem (implementation model of the inverse = reference inverse, every J, arbitrary pyramids) + exact Q(sqrt2) correspondence + numpy dtcwt inverse oracle + absent==zeros oracle', 'DESIGN.md §4 C11',
+          'absent levels and rounding are correspondence/oracle-decided; the reference is represented by validated index formulas: partial.')
     claim('C12',
           'get_dimensions5/6 are TRANSLATED from the source on every run and proved correct for ALL integer (o_dim, ri_dim) with distinct residues (negative aliases included): orientation and '
           'real/imaginary axes sit where requested and h_dim/w_dim are the image rows/columns; every layout is a permutation of the canonical axes; by induction over the level loop a skipped level '
